@@ -31,3 +31,37 @@ func (v *VerifQueue) Pop() int {
 func (v *VerifQueue) Len() int      { return v.q.Len() }
 func (v *VerifQueue) IsEmpty() bool { return v.q.IsEmpty() }
 func (v *VerifQueue) Cap() int      { return int(v.q.cap) }
+
+// VerifLinks lists, for every node of the trie but the root, its path and the path of the node its failure link
+// points to ("?" if the link is nil or leads outside the trie), plus whether the node ends a pattern and its size.
+func (t *Trie) VerifLinks() map[string][]interface{} {
+	path := map[*trieNode]string{&t.root: ""}
+	var order []*trieNode
+	var walk func(n *trieNode, p string)
+	walk = func(n *trieNode, p string) {
+		for _, ch := range n.children {
+			var b []byte
+			if ch.val < 0 {
+				b = []byte{byte(-1 - ch.val)}
+			} else {
+				b = []byte(string(ch.val))
+			}
+			cp := p + string(b)
+			path[ch.node] = cp
+			order = append(order, ch.node)
+			walk(ch.node, cp)
+		}
+	}
+	walk(&t.root, "")
+	out := map[string][]interface{}{}
+	for _, n := range order {
+		f := "?"
+		if n.fail != nil {
+			if p, ok := path[n.fail]; ok {
+				f = p
+			}
+		}
+		out[path[n]] = []interface{}{f, n.isEnd, n.size}
+	}
+	return out
+}
